@@ -276,6 +276,56 @@ pub fn decls(seed: u64, thorough: bool) -> Vec<Decl> {
         out.push(d);
     }
 
+    // validator order within one block: every written rule must survive every position
+    // (a rule is not "implied" by its neighbours: NaN passes literal bounds, so `finite` after them matters)
+    for inner in [Inner::F32, Inner::F64] {
+        let sets: Vec<Vec<ValSpec>> = vec![
+            vec![ValSpec::GreaterEq(lit_f(0.0)), ValSpec::LessEq(lit_f(1024.0)), ValSpec::Finite],
+            vec![ValSpec::Greater(lit_f(-1.5)), ValSpec::Less(lit_f(1.5)), ValSpec::Finite, ValSpec::Predicate(FnRef::new("p_not50", FnForm::Path))],
+            vec![ValSpec::GreaterEq(spelled("const", "KA", "KA", Num::F(5.0), false)), ValSpec::LessEq(spelled("const", "KB", "KB", Num::F(100.0), false)), ValSpec::Finite],
+            vec![ValSpec::GreaterEq(lit_f(0.0)), ValSpec::Finite],
+            vec![ValSpec::Less(lit_f(10.0)), ValSpec::Finite],
+        ];
+        for set in sets {
+            let perms = permutations(set.len());
+            let stepk = if set.len() > 3 && !thorough { 3 } else { 1 };
+            for (pi, p) in perms.iter().enumerate() {
+                if pi % stepk != 0 {
+                    continue;
+                }
+                let mut d = Decl::new(inner);
+                d.vals = Vals::Std(p.iter().map(|i| set[*i].clone()).collect());
+                d.derives = light.to_vec();
+                d.tags = vec!["c02:layout:validator-order".into()];
+                out.push(d);
+            }
+        }
+    }
+    for t in [IntTy::I32, IntTy::U8] {
+        let set = vec![ValSpec::GreaterEq(lit_i(2)), ValSpec::LessEq(lit_i(60)), ValSpec::Predicate(FnRef::new("p_even", FnForm::Closure))];
+        for p in permutations(3) {
+            let mut d = Decl::new(Inner::Int(t));
+            d.vals = Vals::Std(p.iter().map(|i| set[*i].clone()).collect());
+            d.derives = light.to_vec();
+            d.tags = vec!["c02:layout:validator-order".into()];
+            out.push(d);
+        }
+    }
+    {
+        let set = vec![ValSpec::LenCharMin(lit_u(1)), ValSpec::LenCharMax(lit_u(4)), ValSpec::NotEmpty, ValSpec::Predicate(FnRef::new("p_ascii", FnForm::Path))];
+        for (pi, p) in permutations(4).iter().enumerate() {
+            if pi % 2 != 0 && !thorough {
+                continue;
+            }
+            let mut d = Decl::new(Inner::Str);
+            d.sans = if pi % 4 == 0 { vec![SanSpec::Trim] } else { vec![] };
+            d.vals = Vals::Std(p.iter().map(|i| set[*i].clone()).collect());
+            d.derives = light.to_vec();
+            d.tags = vec!["c02:layout:validator-order".into()];
+            out.push(d);
+        }
+    }
+
     // standard validators mixed with a custom `with`/`error` pair, in every order: the union of the
     // written rules must be enforced (or the declaration rejected)
     for (inner, m, std_text, std_val, cust) in [
